@@ -17,6 +17,7 @@
      opaque_strip_applies u   u has an opaque path and no query
      path_empty_at_end u      the path is empty and is the end of the serialization      (class of F-C06-5)
      path_starts_with_2slash u   the path starts with "//"                                 (class of F-C02-2)
+     new_path_ok P        P contains neither '?' nor '#', and is empty or starts with '/'
      host_disp_ok hd h    the text hd h matches the kind of h: empty for the empty host, otherwise
                           non-empty and not starting with ':' / '@'
    All theorems are for both build configurations (dbg) and for arbitrary host functions. *)
@@ -24,7 +25,7 @@ From RU Require Import Base.Prelude Base.Utf8 Model.AsciiSet Gen.Tables Model.Pe
   Model.HostT Model.UrlRecord Model.Parser Model.Setters Model.WF
   Proofs.ListN Proofs.C03_WF Proofs.C06_List Proofs.C06_WFI Proofs.C06_Tail Proofs.C06_Steps Proofs.C06_Suffix
   Proofs.C06_Front Proofs.C06_Atomic Proofs.C06_FragQuery Proofs.C06_Port Proofs.C06_Cred Proofs.C06_Scheme
-  Proofs.C06_HostNone Proofs.C06_Host Proofs.C06_Main.
+  Proofs.C06_HostNone Proofs.C06_Host Proofs.C06_PathParser Proofs.C06_Path Proofs.C06_Segments Proofs.C06_Main.
 
 (* 1. a mutator that reports failure returns the record unchanged (hence as_str() byte for byte).
    No premise at all: every record, every argument, all thirteen status-returning mutators. *)
@@ -59,7 +60,7 @@ Check C06_atomic : forall dbg hp hpo hd,
   /\ fails_atomically (q_set_port dbg).
 Print Assumptions C06_atomic.
 
-(* 2. frame condition, per mutator (set_path and path_segments_mut: see C06_frame_path_statement) *)
+(* 2. frame condition, per mutator (set_path and path_segments_mut: see C06_frame_path) *)
 Theorem C06_frame : forall dbg hp hpo hd u, wfh u ->
   (forall f u', set_fragment dbg u f = Some u' ->
      unchanged_but_fragment dbg u u'
@@ -207,19 +208,49 @@ Proof.
 Qed.
 Print Assumptions C06_known_refuted.
 
-(* What is NOT proved here (kept as statements): the frame condition, invariant preservation and
-   get-after-set for set_path and for path_segments_mut sessions.  They need the alphabet of the path
-   parser states' output (no '?' / '#', leading '/'), which is C05's subject. *)
-Definition C06_frame_path_statement : Prop :=
-  forall dbg u p u', wfh u ->
-    (* outside F-C02-3 (opaque path), F-C02-8 / F-C03-5 (authority-less URL: "//"-leading result, marker) *)
-    is_opaque_b u = false -> has_authority_b u = true ->
-    usv_list p -> set_path dbg u p = Some u' ->
-    wfh u' /\ same_front dbg u u' /\ query dbg u' = query dbg u /\ fragment dbg u' = fragment dbg u.
+(* 8. set_path and path_segments_mut sessions (open, any sequence of clear / pop / pop_if_empty /
+   push / extend, drop) on a URL WITH an authority: invariant, frame, and the new path is what the path
+   state of the parser wrote - free of '?' and '#', empty or starting with '/'.
+   auth_end_ok u: for a special non-file scheme the text in front of the path does not end in '/'
+   (true of every parsed URL; wf_b does not say it).  Authority-less URLs are the classes F-C02-3
+   (opaque path), F-C02-8 and F-C03-5: see C06_path_noauth_refuted and C06_frame_path_noauth_statement. *)
+Theorem C06_frame_path : forall dbg u, wfh u -> has_authority_b u = true ->
+  (forall p u', usv_list p -> auth_end_ok u -> set_path dbg u p = Some u' ->
+     wfh u' /\ same_front dbg u u' /\ query dbg u' = query dbg u /\ fragment dbg u' = fragment dbg u
+     /\ exists P, path u' = Some P /\ new_path_ok P
+        /\ exists hh rem, parse_path_start dbg CSetter (scheme_type_of (nfirstn (scheme_end u) (ser u))) true
+                            (nfirstn (path_start u) (ser u)) p
+                          = POk (nfirstn (path_start u) (ser u) ++ P, hh, rem))
+  /\ (forall ops u', Forall psm_op_usv ops -> path_segments_session dbg u ops = Some (u', SOk) ->
+     wfh u' /\ same_front dbg u u' /\ query dbg u' = query dbg u /\ fragment dbg u' = fragment dbg u
+     /\ exists P, path u' = Some P /\ new_path_ok P).
+Proof. exact path_all. Qed.
+Check C06_frame_path : forall dbg u, wfh u -> has_authority_b u = true ->
+  (forall p u', usv_list p -> auth_end_ok u -> set_path dbg u p = Some u' ->
+     wfh u' /\ same_front dbg u u' /\ query dbg u' = query dbg u /\ fragment dbg u' = fragment dbg u
+     /\ exists P, path u' = Some P /\ new_path_ok P
+        /\ exists hh rem, parse_path_start dbg CSetter (scheme_type_of (nfirstn (scheme_end u) (ser u))) true
+                            (nfirstn (path_start u) (ser u)) p
+                          = POk (nfirstn (path_start u) (ser u) ++ P, hh, rem))
+  /\ (forall ops u', Forall psm_op_usv ops -> path_segments_session dbg u ops = Some (u', SOk) ->
+     wfh u' /\ same_front dbg u u' /\ query dbg u' = query dbg u /\ fragment dbg u' = fragment dbg u
+     /\ exists P, path u' = Some P /\ new_path_ok P).
+Print Assumptions C06_frame_path.
 
-Definition C06_frame_segments_statement : Prop :=
-  forall dbg u ops u', wfh u -> has_authority_b u = true ->
-    path_segments_session dbg u ops = Some (u', SOk) ->
+(* F-C02-8: set_path("//x") on "a:/p" gives "a://x", not well-formed *)
+Theorem C06_path_noauth_refuted :
+  wf_b sp_w1 = true /\ has_authority_b sp_w1 = false
+  /\ exists u', set_path true sp_w1 [47; 47; 120] = Some u' /\ ser u' = [97; 58; 47; 47; 120] /\ wf_b u' = false.
+Proof. exact set_path_noauth_refuted. Qed.
+Print Assumptions C06_path_noauth_refuted.
+
+(* What is NOT proved here (kept as a statement): set_path / path_segments_mut on a URL without
+   authority whose path starts with '/' (not opaque), outside the marker classes: there the result
+   must additionally not begin with "//". *)
+Definition C06_frame_path_noauth_statement : Prop :=
+  forall dbg u p u', wfh u -> has_authority_b u = false -> is_opaque_b u = false ->
+    path_start u = scheme_end u + 1 -> usv_list p ->
+    set_path dbg u p = Some u' -> path_starts_with_2slash u' = false ->
     wfh u' /\ same_front dbg u u' /\ query dbg u' = query dbg u /\ fragment dbg u' = fragment dbg u.
 
 (* non-vacuity: the invariant is inhabited (http://u:p@h:81/a?q#f and an opaque-path URL) *)
